@@ -12,8 +12,9 @@ import time
 import traceback
 
 VERIF = os.path.dirname(os.path.dirname(os.path.abspath(__file__)))
-EVIDENCE_DIR = os.path.join(VERIF, "evidence")
-REPLAY_DIR = os.path.join(VERIF, "out", "replays")
+# the mutant campaign redirects these so that evidence of the real tree is never overwritten
+EVIDENCE_DIR = os.environ.get("LSPVERIF_EVIDENCE_DIR") or os.path.join(VERIF, "evidence")
+REPLAY_DIR = os.environ.get("LSPVERIF_REPLAY_DIR") or os.path.join(VERIF, "out", "replays")
 KNOWN_PATH = os.path.join(VERIF, "known_findings.json")
 SCHEMA_PATH = "/root/.vp/EVIDENCE.schema.json"
 LOCAL_SCHEMA = os.path.join(VERIF, "lspverif", "EVIDENCE.schema.json")
